@@ -100,6 +100,11 @@ def perturbations(c, t, thorough):
                      ("SCP_RETAIL_WASTE", "ADD_METHANE_SCP"), ("CELL_SUGAR_RETAIL_WASTE", "ADD_CELLULOSIC_SUGAR"), ("SEAWEED_WASTE_RETAIL", "ADD_SEAWEED")):
         if c[add] and c[key] >= 5:
             yield "waste-5:" + key, 1, (lambda key: lambda cc, tt: cc.__setitem__(key, cc[key] - 5))(key)
+        # boundary values of one food's waste alone: halved, and removed altogether (exactly zero while the other foods keep theirs)
+        if c[add] and c[key] > 0:
+            yield "waste/2:" + key, 1, (lambda key: lambda cc, tt: cc.__setitem__(key, cc[key] / 2.0))(key)
+            yield "waste=0:" + key, 1, (lambda key: lambda cc, tt: cc.__setitem__(key, 0))(key)
+            yield "waste=0.0:" + key, 1, (lambda key: lambda cc, tt: cc.__setitem__(key, 0.0))(key)
     for kf in (0.5, 3.0):
         def scale(cc, tt, kf=kf):
             for k in ("POP", "POP_BILLIONS", "BILLION_KCALS_NEEDED", "meat_summed_consumption", "INITIAL_SEAWEED", "INITIAL_BUILT_SEAWEED_AREA",
